@@ -69,6 +69,8 @@ class _Inert(ast.NodeTransformer):
         for st in body:
             if isinstance(st, ast.Expr) and isinstance(st.value, ast.Constant):
                 continue
+            if _is_log_call(st):
+                continue
             out.append(st)
         return out or [ast.Pass()]
 
@@ -81,9 +83,76 @@ class _Inert(ast.NodeTransformer):
         return node
 
 
+_LOG_METHODS = {"debug", "info", "warn", "warning", "error", "exception", "critical", "log"}
+
+
+def _is_log_call(st):
+    """`<anything mentioning logger>.debug/info/...(simple arguments)` as a statement"""
+    if not (isinstance(st, ast.Expr) and isinstance(st.value, ast.Call)):
+        return False
+    f = st.value.func
+    if not (isinstance(f, ast.Attribute) and f.attr in _LOG_METHODS):
+        return False
+    if "logger" not in ast.unparse(f.value).lower():
+        return False
+    for a in list(st.value.args) + [k.value for k in st.value.keywords]:
+        for n in ast.walk(a):
+            if isinstance(n, (ast.Call, ast.Await, ast.Yield, ast.YieldFrom, ast.NamedExpr)):
+                return False
+    return True
+
+
+def _locals_in_order(fn):
+    """names bound inside fn (not its parameters), in order of first binding; None when the
+    function has nested scopes or global/nonlocal declarations (then no renaming is attempted)"""
+    params = {a.arg for a in fn.args.posonlyargs + fn.args.args + fn.args.kwonlyargs}
+    if fn.args.vararg:
+        params.add(fn.args.vararg.arg)
+    if fn.args.kwarg:
+        params.add(fn.args.kwarg.arg)
+    order = []
+    for n in ast.walk(fn):
+        if n is not fn and isinstance(n, (ast.FunctionDef, ast.AsyncFunctionDef, ast.Lambda, ast.ClassDef,
+                                          ast.Global, ast.Nonlocal, ast.Import, ast.ImportFrom)):
+            return None
+    class V(ast.NodeVisitor):
+        def visit_Name(self, n):
+            if isinstance(n.ctx, (ast.Store, ast.Del)) and n.id not in params and n.id not in order:
+                order.append(n.id)
+        def visit_ExceptHandler(self, n):
+            if n.name and n.name not in params and n.name not in order:
+                order.append(n.name)
+            self.generic_visit(n)
+    V().visit(fn)
+    return order
+
+
+def _alpha(fn):
+    order = _locals_in_order(fn)
+    if not order:
+        return fn
+    used = {n.id for n in ast.walk(fn) if isinstance(n, ast.Name)} | {a.arg for a in ast.walk(fn) if isinstance(a, ast.arg)}
+    ren = {}
+    for i, nm in enumerate(order):
+        new = "L%d_" % i
+        if new in used:
+            return fn
+        ren[nm] = new
+    for n in ast.walk(fn):
+        if isinstance(n, ast.Name) and n.id in ren:
+            n.id = ren[n.id]
+        elif isinstance(n, ast.ExceptHandler) and n.name in ren:
+            n.name = ren[n.name]
+    return fn
+
+
 def func_shape(fn):
-    """normalised text of a function: arguments + body, docstrings and comments gone"""
+    """normalised text of a function: arguments + body; docstrings, comments and logger calls gone,
+    local variables renamed to L0_, L1_, ... in order of first binding (parameters keep their names:
+    callers may pass them by keyword)"""
     fn = _Inert().visit(ast.parse(ast.unparse(fn)).body[0])
+    if isinstance(fn, (ast.FunctionDef, ast.AsyncFunctionDef)):
+        fn = _alpha(fn)
     return ast.unparse(fn)
 
 
